@@ -55,8 +55,10 @@ Fixpoint subseq_mod (s : schema) (mid src : list tok) : bool :=
   match mid with
   | [] => true
   | x :: mid' =>
-    (match find_from s x src with Some rest => subseq_mod s mid' rest | None => false end)
-    || (is_filler s x && subseq_mod s mid' src)
+    (* [if], not [||]: under call-by-value evaluation both arguments of [orb] would be computed, which is
+       exponential in the length of mid *)
+    if (match find_from s x src with Some rest => subseq_mod s mid' rest | None => false end) then true
+    else if is_filler s x then subseq_mod s mid' src else false
   end.
 
 (* peel the content that followed the range off the end of the result: matched greedily from the end;
